@@ -88,11 +88,12 @@ REGISTRY = {
 TRUSTED_BASE = [
     "Lean 4.33.0 kernel (lake build); thorough tier additionally leanchecker on the compiled modules",
     "axioms allowed: propext, Classical.choice, Quot.sound (audited with #print axioms every run); no sorry/native_decide/bv_decide/own axioms",
-    "tools/translate.py + translate_more.py (Python ast -> Pamqp/Generated/*.lean), regenerated every run",
+    "tools/translate.py + translate_more.py (Python ast -> Pamqp/Generated/*.lean), regenerated every run; tools/introspect.py (data tables read from the imported module in a child interpreter: fallback where the source spells a table in a way the ast reader does not evaluate, cross-check everywhere else)",
+    "shape obligations (which function uses which struct member / except clause / codec / time call; guard packers) are advisory: when one fails the lanes and the search run at an intensified budget and the verdict rests on the hard obligations, the lanes and the search",
     "hand-written model Pamqp/Model/*.lean of encode.py decode.py base.py frame.py header.py body.py heartbeat.py, tied to the code by the correspondence lanes (sampled)",
     "CPython primitives modelled, not verified: struct, UTF-8 codec, float->single rounding, Decimal, datetime/calendar, re, sorted, dict",
     "hand-transcribed specification tables Pamqp/Spec/Tables.lean (tools/spec_tables.py) and domain predicates Pamqp/Spec/Defs.lean",
-    "the harness: generators, canonicalisers, driver parser/printer, Lean compiler for the driver executable",
+    "the harness: generators, canonicalisers, driver parser/printer, Lean compiler for the driver executable; the failing-input search (oracles) is sampling and takes its input domain from the specification transcription; it alternates ambient state (logging configuration, decimal context) around calls and inspects child interpreters started with other flags / environments / time zones - none of this is proof, all of it only searches for failing inputs or validates the model",
 ]
 
 
